@@ -36,7 +36,8 @@ pub(crate) fn parse_key(raw: &str) -> Result<crate::Key, TomlError> {
     use prelude::*;
 
     let b = new_input(raw);
-    let result = trailing_eof(key::simple_key).parse(b.clone());
+    let result =
+        trailing_eof(key::simple_key.context(StrContext::Label("key"))).parse(b.clone());
     match result {
         Ok((raw, key)) => {
             Ok(crate::Key::new(key).with_repr_unchecked(crate::Repr::new_unchecked(raw)))
